@@ -154,9 +154,37 @@ def cast(xs, dt):
     return np.array([float(x) for x in q], dtype=dt)      # float32
 
 
+_FN_CLASS = {}
+BB_TEMP = 5000.0
+
+
+def fn_class():
+    """a user subclass in the manner of lentil's Blackbody: sample() evaluates a formula at the requested wavelengths and
+    knows no fill value (here 1000 + wavelength, as a number in the unit of the request)"""
+    lentil = C.import_lentil()
+    key = id(lentil)
+    if key not in _FN_CLASS:
+        class FnSpectrum(lentil.radiometry.Spectrum):
+            def sample(self, wave, waveunit='nm', *args, **kwargs):
+                return 1000.0 + np.asarray(wave, dtype=float)
+        _FN_CLASS.clear()
+        _FN_CLASS[key] = FnSpectrum
+    return _FN_CLASS[key]
+
+
 def mk(sd, plain=False):
     """plain=True: the float64 twin (same numbers, default storage, canonical unit spelling)"""
     lentil = C.import_lentil()
+    if sd.get('fn') == 'affine':
+        w = cast(sd['wave'], None)
+        S = fn_class()(w, 1000.0 + w, waveunit=sd['wu'], valueunit=sd['vu'])
+        S._verif_inputs = (w,)
+        return S
+    if sd.get('fn') == 'blackbody':
+        w = cast(sd['wave'], None)
+        S = lentil.radiometry.Blackbody(w, BB_TEMP, waveunit=sd['wu'], valueunit='photlam')
+        S._verif_inputs = (w,)
+        return S
     if plain:
         return lentil.radiometry.Spectrum(cast(sd['wave'], None), cast(sd['value'], None), waveunit=sd['wu'], valueunit=sd['vu'])
     w_in, v_in = cast(sd['wave'], sd.get('wdt')), cast(sd['value'], sd.get('vdt'))
@@ -239,6 +267,23 @@ def alias_probe(r, operands):
     info = {'is_operand': any(r is o for o in operands),
             'value_shared': any(np.shares_memory(np.asarray(r.value), np.asarray(o.value)) for o in operands),
             'wave_shared': any(np.shares_memory(np.asarray(r.wave), np.asarray(o.wave)) for o in operands)}
+    # a result is a Spectrum like any other: used as the RIGHT operand of an ndarray / numpy scalar it must give the
+    # element-wise product (numpy has to defer to Spectrum.__rmul__), the same as with the operands swapped
+    try:
+        rv = np.asarray(r.value, dtype=float)
+        if rv.ndim == 1 and rv.size and np.all(np.isfinite(rv)) and type(r.value) is np.ndarray:
+            vec = 1.0 + (np.arange(rv.size) % 3)
+            ref = res(r * vec)
+            for lhs in (vec, np.float64(2.0)):
+                t = lhs * r
+                if not isinstance(t, type(r)):
+                    info['chain'] = f'{type(lhs).__name__} * result is a {type(t).__name__}, not a Spectrum'
+                    break
+                if lhs is vec and not same_result(res(t), ref):
+                    info['chain'] = 'ndarray * result differs from result * ndarray'
+                    break
+    except Exception as e:
+        info['chain'] = f'using the result as an operand raised {type(e).__name__}'
     before = [snap(o) for o in operands]
     w = np.asarray(r.wave, dtype=float)
     edits = []
@@ -270,6 +315,8 @@ def alias_probe(r, operands):
 def alias_verdict(info):
     if not info:
         return None
+    if info.get('chain'):
+        return 'the result is not a usable spectrum: ' + info['chain']
     if info['is_operand']:
         return 'the result is the operand itself, not a new spectrum'
     if info['value_shared']:
@@ -311,16 +358,25 @@ def guarded(fn):
 
 def run_impl(c):
     def go():
+        import warnings
+        old = np.seterr(all='ignore')
+        pre, nfilters = np.geterr(), len(warnings.filters)
         try:
-            return run_impl_(c)
+            out = run_impl_(c)
         except Exception as e:      # raised outside the guarded calls: the constructor refused a well-formed spectrum
-            return {'err': type(e).__name__, 'stage': 'constructing the operands', 'unchanged': True}
+            out = {'err': type(e).__name__, 'stage': 'constructing the operands', 'unchanged': True}
+        finally:
+            post, nfilters2 = np.geterr(), len(warnings.filters)
+            np.seterr(**old)
+        if post != pre:        # (the warnings filter list is not compared: first-time imports of scipy add to it)
+            out['env_changed'] = f'numpy error state {pre} -> {post}'
+        return out
     return guarded(go)
 
 
 def run_impl_(c):
     op = c['op']
-    with np.errstate(all='ignore'):
+    if True:        # the numpy error state is set (and watched) by run_impl
         if op == 'ctor':
             return attempt(lambda: mk(c['s']))
         if op == 'spec':
@@ -639,8 +695,8 @@ def gen_call(rng, tier):
     return c
 
 
-def do_call(objs, call):
-    """one step of a history on live objects -> canonical result"""
+def do_call(objs, call, hold=None):
+    """one step of a history on live objects -> canonical result (hold: keep the returned arrays themselves)"""
     k = call['k']
     if k == 'to':
         objs[call['i']].to(call['unit'])
@@ -651,8 +707,14 @@ def do_call(objs, call):
     if k == 'sample':
         v = objs[call['i']].sample(np.array([fl(x) for x in call['at']], dtype=float), method='linear',
                                    fill_value=fill_arg(call['fill']), waveunit=call['unit'])
+        if hold is not None:
+            hold.append((v, np.array(v, copy=True)))
         return {'value': np.asarray(v, dtype=float).tolist()}
-    r = res(call_op(objs[call['i']], objs[call['j']], call))
+    ro = call_op(objs[call['i']], objs[call['j']], call)
+    if hold is not None:
+        hold.append((ro.wave, np.array(ro.wave, copy=True)))
+        hold.append((ro.value, np.array(ro.value, copy=True)))
+    r = res(ro)
     r['new'] = True
     return r
 
@@ -666,10 +728,12 @@ def run_history(c):
         except Exception as e:
             return {'err': type(e).__name__}
     objs = [mk(sd) for sd in c['specs']]
-    live, fresh, states = [], [], []
+    live, fresh, states, held, held_at = [], [], [], [], []
     for n, call in enumerate(c['calls']):
         before = [snap(o) for o in objs]
-        live.append(safe(lambda: do_call(objs, call)))
+        nh = len(held)
+        live.append(safe(lambda: do_call(objs, call, held)))
+        held_at += [n] * (len(held) - nh)
         after = [snap(o) for o in objs]
         states.append(call['k'] in ('to', 'poke') or before == after)
         if call['k'] in ('to', 'poke'):
@@ -680,7 +744,12 @@ def run_history(c):
             if prev['k'] in ('to', 'poke'):
                 do_call(fo, prev)
         fresh.append(safe(lambda: do_call(fo, call)))
-    return {'live': live, 'fresh': fresh, 'unchanged': all(states)}
+    out = {'live': live, 'fresh': fresh, 'unchanged': all(states)}
+    for (arr, copy_), n in zip(held, held_at):      # every array handed out earlier still holds what it held then
+        if not np.array_equal(np.asarray(arr), copy_, equal_nan=True):
+            out['held_changed'] = n
+            break
+    return out
 
 
 # ------------------------------------------------------------------ model side
@@ -700,6 +769,8 @@ def enc_fill(f):
 def encode(c):
     op = c['op']
     if op in ('hist', 'big'):
+        return None
+    if op == 'spec' and (c['a'].get('fn') or c['b'].get('fn')):
         return None
     if op == 'samplecall':
         fe = [2] if isinstance(c['fill'], dict) else enc_fill(c['fill'])
@@ -874,6 +945,18 @@ def expected_at(c, an, x):
     """value the property demands at wavelength x (a's unit): xval, operands (y1, y2), exactness of the float route"""
     y1, ok1 = interp_exact(an['w1'], an['v1'], x)
     y2, ok2 = interp_exact(an['w2'], an['v2'], x)
+    # operands given by a formula: inside their range the formula at x (no interpolation), the fill value outside
+    for k, (sd, y) in enumerate(((c['a'], y1), (c['b'], y2))):
+        if sd.get('fn') and y is not None:
+            if sd['fn'] == 'affine':
+                yy, okk = 1000 + x, True
+            else:
+                pr = C.import_lentil().radiometry.planck_radiance(np.array([float(x)]), BB_TEMP, sd['wu'], 'photlam')
+                yy, okk = F(float(pr[0])), False
+            if k == 0:
+                y1, ok1 = yy, okk
+            else:
+                y2, ok2 = yy, okk
     if y1 is None:
         y1 = fill_of(c['fill'], an['w1'], x)
     if y2 is None:
@@ -978,6 +1061,11 @@ def verify_result(c, an, r, what):
 # ------------------------------------------------------------------ direct property oracle (independent of the model)
 def oracle(c, impl):
     op = c['op']
+    if impl.get('env_changed'):
+        return 'the call changed the caller\'s environment: ' + impl['env_changed']
+    if impl.get('held_changed') is not None:
+        return (f'the arrays returned by call {impl["held_changed"]} of the history changed during the later calls '
+                '(a result must own its memory)')
     if not impl.get('unchanged', True):
         return 'an operand was modified by the operation (wave, value or unit changed)'
     if (impl.get('alias') or {}).get('is_operand'):
@@ -1595,6 +1683,34 @@ def gen_nearties(rng, tier):
     return gen_spec(rng, tier)
 
 
+def gen_formula(rng, tier):
+    """an operand that is given by a formula (user subclass / the public Blackbody: sample() knows no fill value), with its
+    ends strictly inside the union range and off the common grid: outside ITS range the fill value must be used"""
+    for _ in range(30):
+        n = rng.randint(2, 6)
+        d = F(2) ** rng.choice([0, 1, 2])
+        start = F(rng.randint(20, 60)) * d
+        wf_ = [start + i * d for i in range(n)]                    # the formula operand
+        step = d * rng.choice([F(3, 4), F(5, 8), F(3, 8), F(7, 16), F(1, 2)])
+        lo = wf_[0] - step * rng.choice([F(5, 3), F(9, 4), 3, F(1, 3)])
+        m = int((wf_[-1] - lo) / step) + rng.randint(2, 5)
+        wo = [lo + i * step for i in range(m)]                     # the other operand reaches further on both sides
+        kind = rng.choice(['affine', 'affine', 'blackbody'])
+        scale = 10 if kind == 'blackbody' else 1                    # 200 .. 2500 nm for the Planck law
+        fs = spec_dict([x * scale for x in wf_], [0] * n, 'nm', 'photlam' if kind == 'blackbody' else None)
+        fs['fn'] = kind
+        os_ = spec_dict([x * scale for x in wo], rnd_values(rng, m, 'pos'), 'nm', None)
+        o = rng.choice(['mul', 'add', 'mul', 'sub']) if kind == 'affine' else rng.choice(['mul', 'add'])
+        c = {'op': 'spec', 'o': o, 'a': fs, 'b': os_, 'sampling': rng.choice(['min', 'min', 'right', 'left', str(step * scale)]),
+             'fill': rng.choice(['0', '0', '1', '-1', '2']), 'rel': 'formula:' + kind}
+        if rng.random() < 0.5:
+            c['a'], c['b'] = c['b'], c['a']
+            c['sampling'] = {'left': 'right', 'right': 'left'}.get(c['sampling'], c['sampling'])
+        if small_enough(c) and not analyse(c).get('undefined'):
+            return c
+    return gen_spec(rng, tier)
+
+
 def gen_other(rng):
     n = rng.randint(1, 6)
     w = rnd_grid(rng, dy(rng, 1, 9, 2), n)
@@ -1712,6 +1828,8 @@ def generate(rng, tier):
             c = gen_spec(rng, tier)
             c = decorate(rng, c, 0.15) if rng.random() < 0.3 else c
             yield rescale_case(rng, c) if rng.random() < 0.2 else c
+        elif t < 0.37:
+            yield gen_formula(rng, tier)
         elif t < 0.39:
             yield gen_nearties(rng, tier)
         elif t < 0.45:
@@ -1736,7 +1854,7 @@ def classify(c):
     if c['op'] == 'spec':
         an = analyse(c)
         reg = 'undefined' if an.get('undefined') else ('exact' if an['exact'] else 'tolerant')
-        fam = 'nearties' if str(c.get('rel', '')).startswith('nearties') else 'samenumbers' if str(c.get('rel', '')).startswith('samenumbers') else ('storage' if is_storage_case(c) else c['o'])
+        fam = 'formula' if str(c.get('rel', '')).startswith('formula') else 'nearties' if str(c.get('rel', '')).startswith('nearties') else 'samenumbers' if str(c.get('rel', '')).startswith('samenumbers') else ('storage' if is_storage_case(c) else c['o'])
         return f'spec:{fam}:{reg}'
     return c['op']
 
